@@ -26,7 +26,7 @@ import (
 func init() {
 	Registry["C06"] = &Check{
 		Scenarios: c06Scenarios,
-		Rule: "a retained message followed by a second message (the same wire image, or one with member-less groups) that is then edited in every ordinary way (a member added to each of its groups at every depth, a top-level AVP added, header changed): the retained one must not change; retained AVPs of an application-defined data type whose name is registered without a decoder (kept, if at all, as a copy); a message read while a 1.1 / 4 / 70 KB message is in flight on another connection (suspended at its header/body border, 8 and 600 bytes into the body), then retained across later reads; retained groups nested 40 / 64 / 65 / 100 deep; histories: a retained first message M1 (one per slice-backed representation: Address IPv4 / IPv6 / other family, undefined AVP, IPv4, IPv6, OctetString, UTF8String, a grouped AVP containing each, nested groups; and one AVP of every declared type carrying payloads of 15 unexpected lengths / shapes, i.e. the lenient decode paths) followed by every sequence of <=3 further reads drawn from {same size with other content, larger but pooled, larger than the 1 KiB pooled buffer} x {same reader, another reader}; the pool shim reuses buffers deterministically (LIFO), so nothing depends on sync.Pool's luck; the same with the exported tuning variable diam.MessageBufferLength raised to 4096 and retained payloads of 1000..3000 bytes. schedules: two connections served by the real reader loops, a handler that retains the first message of connection A, a concurrent writer; Pool.Get is an explored choice (any pooled buffer, or a fresh one); every schedule up to preemption bound 2 (thorough: 4 on all fifteen retained shapes). Oracle: Serialize() bytes and String() of M1 taken when the reader returned it equal those taken at quiescence. Plus: M1 is unmarshalled into a struct and two later messages of the same shape are unmarshalled into the SAME struct value (field shapes *diam.AVP, diam.AVP, []*diam.AVP, the datatype, a pointer to it; 8 data types).",
+		Rule: "retained groups of 15 / 16 / 17 / 32 members; every other later message carries its bytes inside a Grouped AVP of three members (a decode that builds member lists of its own); a retained message followed by a second message (the same wire image, or one with member-less groups) that is then edited in every ordinary way (a member added to each of its groups at every depth, a top-level AVP added, header changed): the retained one must not change; retained AVPs of an application-defined data type whose name is registered without a decoder (kept, if at all, as a copy); a message read while a 1.1 / 4 / 70 KB message is in flight on another connection (suspended at its header/body border, 8 and 600 bytes into the body), then retained across later reads; retained groups nested 40 / 64 / 65 / 100 deep; histories: a retained first message M1 (one per slice-backed representation: Address IPv4 / IPv6 / other family, undefined AVP, IPv4, IPv6, OctetString, UTF8String, a grouped AVP containing each, nested groups; and one AVP of every declared type carrying payloads of 15 unexpected lengths / shapes, i.e. the lenient decode paths) followed by every sequence of <=3 further reads drawn from {same size with other content, larger but pooled, larger than the 1 KiB pooled buffer} x {same reader, another reader}; the pool shim reuses buffers deterministically (LIFO), so nothing depends on sync.Pool's luck; the same with the exported tuning variable diam.MessageBufferLength raised to 4096 and retained payloads of 1000..3000 bytes. schedules: two connections served by the real reader loops, a handler that retains the first message of connection A, a concurrent writer; Pool.Get is an explored choice (any pooled buffer, or a fresh one); every schedule up to preemption bound 2 (thorough: 4 on all fifteen retained shapes). Oracle: Serialize() bytes and String() of M1 taken when the reader returned it equal those taken at quiescence. Plus: M1 is unmarshalled into a struct and two later messages of the same shape are unmarshalled into the SAME struct value (field shapes *diam.AVP, diam.AVP, []*diam.AVP, the datatype, a pointer to it; 8 data types).",
 		Assume: []string{"data-race freedom between visible operations (audited separately with -race)", "sync.Pool is modelled as: Get returns any previously Put object or allocates"},
 		QuickBudget: 100, ThoroughBudget: 1500,
 	}
@@ -101,6 +101,15 @@ func c06Firsts() (names []string, wires [][]byte) {
 		}
 		names = append(names, fmt.Sprintf("group-nested-%d-deep", depth))
 		wires = append(wires, refcodec.EncodeMessage(hdr, []refcodec.Node{n}))
+	}
+	// groups of 15, 16, 17 and 32 members (around the sizes at which small fixed tables end)
+	for _, width := range []int{15, 16, 17, 32} {
+		var kids []refcodec.Node
+		for i := 0; i < width; i++ {
+			kids = append(kids, leaves[[]string{"u64", "time", "ipv4"}[i%3]])
+		}
+		names = append(names, fmt.Sprintf("group-of-%d-members", width))
+		wires = append(wires, refcodec.EncodeMessage(hdr, []refcodec.Node{{Code: g.Code, Flags: 0x40, Group: true, Children: kids}, leaves["ident"]}))
 	}
 	// the same code twice at one level, not adjacent (top level and inside a group)
 	names = append(names, "repeated-code-top-level")
@@ -276,8 +285,16 @@ func c06Follow(refLen, kind, seq int) []byte {
 	for i := range p {
 		p[i] = 0xEE ^ byte(seq*16+i%5)
 	}
-	return refcodec.EncodeMessage(refcodec.Header{Version: 1, Flags: 0x80, Code: 777, App: 0, HbH: 2, E2E: uint32(seq + 10)},
-		[]refcodec.Node{{Code: c06Alpha.Undef[0], Payload: p}})
+	hdr := refcodec.Header{Version: 1, Flags: 0x80, Code: 777, App: 0, HbH: 2, E2E: uint32(seq + 10)}
+	if seq%2 == 1 && len(p) >= 40 {
+		// every other follow-up carries its bytes inside a Grouped AVP of three members (same total
+		// size): a later decode that builds member lists of its own
+		q := p[:len(p)-36]
+		k := (len(q) / 2) &^ 3
+		return refcodec.EncodeMessage(hdr, []refcodec.Node{{Code: c06Alpha.Groups[0].Code, Flags: 0x40, Group: true, Children: []refcodec.Node{
+			{Code: c06Alpha.Undef[0], Payload: q[:k]}, {Code: c06Alpha.Undef[1], Flags: 0x80, Vendor: 4242, Payload: q[k : len(q)-4]}, {Code: c06Alpha.Undef[0], Payload: p[len(p)-12:]}}}})
+	}
+	return refcodec.EncodeMessage(hdr, []refcodec.Node{{Code: c06Alpha.Undef[0], Payload: p}})
 }
 
 type c06Snap struct {
